@@ -65,7 +65,7 @@ def run(ctx):
             n_problems += len(_register(ctx, S, ["corpus"], items))
         finally:
             S.close()
-    nbase = ctx.n(70, 700)
+    nbase = ctx.n(150, 450)
     per_base = ctx.n(2, 10)
     for _ in range(nbase):
         base, notes = TC.gen_base(ctx.rng, "C11")
